@@ -983,6 +983,25 @@ def check_doc(ctx, batch, recipe, enc, entry, stream, history=None, formatter="m
         if codecs.lookup(oe).name != expected_bom_codec(out, enc):
             viol("re-parsing BOM-carrying output auto-detects a different encoding", expected=expected_bom_codec(out, enc), observed=oe)
         ctx.count("doc:redetect:bom")
+    # argument forms: the deprecated alias and the positional spelling go through the same code
+    if formatter == "minimal":
+        try:
+            if entry == "encode_contents_body":
+                alt = soup.body.renderContents(enc)
+                what = "renderContents(encoding) differs from encode_contents(encoding=encoding)"
+            elif entry == "encode":
+                alt = soup.encode(enc, None, "minimal", "xmlcharrefreplace")
+                what = "encode(encoding, None, 'minimal', 'xmlcharrefreplace') (positional) differs from encode(encoding)"
+            elif entry == "encode_contents":
+                alt = soup.encode_contents(None, enc, "minimal")
+                what = "encode_contents(None, encoding, 'minimal') (positional) differs from encode_contents(encoding=encoding)"
+            else:
+                alt = soup.encode(enc, 0)
+                what = "encode(encoding, 0) differs from prettify(encoding)"
+            if alt != out:
+                viol(what, expected=ascii(out[:200]), observed=ascii(alt[:200]), kind="argument-form")
+        except Exception as ex:
+            viol(f"an equivalent argument form of {entry} raised {type(ex).__name__}", observed=repr(ex)[:200], kind="argument-form")
     ctx.count(f"doc:entry:{entry}")
     ctx.count(f"doc:formatter:{formatter}")
     ctx.count(f"doc:meta:{style}")
